@@ -119,6 +119,8 @@ class Result:
         self.trace = oc.get("trace") or []
         self.blocked = oc.get("blocked") or []
         self.map_races = oc.get("map_races") or []
+        self.map_checks = oc.get("map_checks") or 0
+        self.map_shared = oc.get("map_shared") or 0
         self.deliveries = raw.get("deliveries") or []
         self.exit_normal = raw.get("exit_normal", False)
         self.note = raw.get("note", "")
